@@ -11,8 +11,8 @@ typedef talloc<uint8_t> A;
 typedef ds::bloom_filter_alloc<A> S;
 static const u64 SEEDS[3] = { ds::DEFAULT_SEED, 12345, 0x9e3779b97f4a7c15ULL };
 
-enum { V_INIT = 1, V_WWRAP, V_RWRAP, V_DESER, V_COPY, V_DESTROY, V_UPDATE, V_QAU, V_QUERY, V_UNION, V_INTERSECT, V_INVERT, V_RESET, V_BITS, V_SERIALIZE, V_BATCH, V_WRITE_RO, V_ASSIGN, V_N };
-const char* names[] = { "?", "initialize", "writable_wrap", "wrap", "deserialize", "copy", "view_death", "update", "query_and_update", "query", "union_with", "intersect", "invert", "reset", "get_bits_used", "serialize", "batch_update", "write_through_read_only", "copy_assign" };
+enum { V_INIT = 1, V_WWRAP, V_RWRAP, V_DESER, V_COPY, V_DESTROY, V_UPDATE, V_QAU, V_QUERY, V_UNION, V_INTERSECT, V_INVERT, V_RESET, V_BITS, V_SERIALIZE, V_BATCH, V_WRITE_RO, V_ASSIGN, V_FPP, V_N };
+const char* names[] = { "?", "initialize", "writable_wrap", "wrap", "deserialize", "copy", "view_death", "update", "query_and_update", "query", "union_with", "intersect", "invert", "reset", "get_bits_used", "serialize", "batch_update", "write_through_read_only", "copy_assign", "false_positive_rate" };
 
 // Bloom's own canonicalisation (bloom_filter.hpp): unsigned integers are zero-extended, signed ones sign-extended, float -> canonical double
 enum BType { B_I64, B_U64, B_I32, B_U32, B_I16, B_U16, B_I8, B_U8, B_DOUBLE, B_FLOAT, B_STRING, B_BYTES, B_NEGZERO, B_NAN, B_EMPTYSTR, B_NTYPES };
@@ -67,7 +67,7 @@ struct C15World: World {
       else if (roll < 81) { s.kind = V_UNION; s.b = static_cast<i64>(rp.below(400)); s.c = static_cast<i64>(rp.below(4)); }
       else if (roll < 85) { s.kind = V_INTERSECT; s.b = static_cast<i64>(rp.below(400)); s.c = static_cast<i64>(rp.below(4)); }
       else if (roll < 88) s.kind = V_INVERT; else if (roll < 91) s.kind = V_RESET; else if (roll < 95) s.kind = V_BITS; else if (roll < 97) s.kind = V_SERIALIZE;
-      else if (roll < 99) s.kind = V_WRITE_RO; else s.kind = V_INIT;
+      else if (roll < 99) s.kind = V_WRITE_RO; else if (rp.chance(1, 2)) { s.kind = V_FPP; s.b = static_cast<i64>(rp.below(1000)); s.c = static_cast<i64>(rp.below(16)); } else s.kind = V_INIT;
       p.steps.push_back(s);
     }
     return p;
@@ -100,6 +100,17 @@ struct C15World: World {
       View& v = views[static_cast<size_t>(s.a) % views.size()];
       const int type = static_cast<int>(s.c) % B_NTYPES;
       switch (s.kind) {
+        case V_FPP: {   // a filter built for a target accuracy, filled with exactly the number of items it was built for: the rate of false positives on
+          // 20000 other items stays near the target (pinned tree: at most 1.7 x target over 640 filters; 2.5 x target plus five standard deviations is demanded)
+          static const u64 ns[] = { 50, 200, 1000, 5000 }; static const double fpps[] = { 0.2, 0.05, 0.01, 0.001 };
+          const u64 n_items = ns[static_cast<size_t>(s.c) % 4]; const double target = fpps[static_cast<size_t>(s.c >> 2) % 4]; const int Q = 20000;
+          S f2 = S::builder::create_by_accuracy(n_items, target, seed + static_cast<u64>(s.b), A(1));
+          for (u64 i2 = 0; i2 < n_items; i2++) f2.update(static_cast<int64_t>(i2 * 3 + static_cast<u64>(s.b)));
+          int fpc = 0; for (int q = 0; q < Q; q++) if (f2.query(static_cast<int64_t>(1000000007LL + q * 13 + s.b))) fpc++;
+          for (u64 i2 = 0; i2 < n_items; i2 += 1 + n_items / 50) if (!f2.query(static_cast<int64_t>(i2 * 3 + static_cast<u64>(s.b)))) ctx.fail("C15|false-negative", "filter built by accuracy");
+          const double rate = static_cast<double>(fpc) / Q, allowed = 2.5 * target + 5 * std::sqrt(target / Q);
+          if (rate > allowed) ctx.fail("C15|false-positive-rate-far-above-target", "filter for " + std::to_string(n_items) + " items at target " + std::to_string(target) + " (" + std::to_string(f2.get_capacity()) + " bits, " + std::to_string(f2.get_num_hashes()) + " hashes): " + std::to_string(rate) + " of " + std::to_string(Q) + " absent items reported present, allowed " + std::to_string(allowed));
+          ctx.check(); ctx.probe("false_positive_rate_checked"); break; }
         case V_INIT: {
           for (View& o : views) if (o.on_mem) { o.f.reset(); o.on_mem = false; }
           views[0].f.reset(new S(S::builder::initialize_by_size(mem, mem_size, num_bits, nh, seed, A(1)))); views[0].on_mem = true; views[0].read_only = false; views[0].stale = false;
